@@ -333,6 +333,8 @@ type c09Job struct {
 	Reqs    [][]c09Req `json:"reqs,omitempty"` // serve: per worker, the requests it issues back to back (c09srv.go)
 	Only    int        `json:"only,omitempty"` // registry: k+1 = run evaluation k only, alone in this process; 0 = all
 	Seq     bool       `json:"seq,omitempty"`  // registry: run the evaluations one after the other in this process
+	Groups  []c09CtxGroup `json:"groups,omitempty"` // ctxshare: groups of evaluations under one context each (c09wide.go)
+	Cfgs    []c09CfgEval  `json:"cfgs,omitempty"`   // config: the risor options of every evaluation (c09wide.go)
 }
 
 type c09Out struct {
@@ -719,6 +721,9 @@ func c09RunHold(job *c09Job, conc bool) []string {
 		}
 	}
 	options := func(k int) []risor.Option {
+		if job.Kind == "config" { // own configuration options: in-place edits of the modules its Config holds
+			return c09CfgOptions(job.Cfgs[k], k, syncFn)
+		}
 		if job.Kind == "registry" { // own Go object behind a proxy; the Go TYPE (and its registry entry) is shared
 			return append(c09RegGlobals(k),
 				risor.WithGlobal("pid", k),
@@ -749,6 +754,10 @@ func c09RunHold(job *c09Job, conc bool) []string {
 			}
 		}()
 		opts := options(k) // own globals
+		if job.Kind == "config" {
+			res[k] = c09CfgRun(ctx, job.Cfgs[k].API, job.Srcs[0], opts)
+			return
+		}
 		if job.Share {
 			if sharedErr != nil {
 				res[k] = "error: " + sharedErr.Error()
@@ -827,8 +836,10 @@ func c09RunJob(job *c09Job, conc bool) []string {
 		return c09RunClones(job, conc)
 	case "clone-rerun":
 		return c09RunCloneRerun(job, conc)
-	case "hold", "registry":
+	case "hold", "registry", "config":
 		return c09RunHold(job, conc)
+	case "ctxshare":
+		return c09RunCtxShare(job, conc)
 	case "serve":
 		return c09RunServe(job, conc)
 	}
@@ -1214,7 +1225,11 @@ func c09_runC09(e *Env) {
 		"serve schedules (1..6 workers issue 2..6 requests each back to back through risor.Eval / EvalCode / vm.Run / risor.Call, each request under its own WithCancel/WithTimeout/WithDeadline/Background context released " +
 		"right after it returned / from inside the worker's next request / when the worker is done / by itself during the run; every result compared with its closed-form stand-alone result and with the Lean machine model), " +
 		"and registry schedules (hold schedules over objects out of the process-wide Go-type registry obtained through proxies — type objects, attributes maps, method / field objects, their types, bound methods — " +
-		"which every evaluation edits and prints; reference = the evaluation alone in a fresh process; run concurrently and back to back in one process); " +
+		"which every evaluation edits and prints; reference = the evaluation alone in a fresh process; run concurrently and back to back in one process), " +
+		"ctxshare schedules (1..3 groups of 2..5 evaluations, each group under ONE WithCancel/WithTimeout/WithDeadline context that is cancelled — or expires — only after the group's short members have returned " +
+		"while its long members are still running, members started early or after the first ones returned, through risor.Eval / EvalCode / Call / vm.Run / vm.New+Run; closed-form results and the Lean context model), " +
+		"and config schedules (2..6 evaluations with their own risor options — WithoutGlobal / WithGlobalOverride on attributes of standard-library modules, top-level WithoutGlobal, or none — " +
+		"that read a pool of 1..5 of 22 module attributes before and after the others ran; reference = the evaluation alone in a fresh process and the Lean configuration model; concurrently and back to back); " +
 		"non-trivial when >= 2 evaluations touch the same inventoried location (always, by construction, except single-snippet sets without shared state); distinct by the full job text"
 	tab := c09LoadTable(e)
 	if len(tab.byFn) < 10 {
@@ -1260,9 +1275,11 @@ func c09_runC09(e *Env) {
 
 	nModel, nSnip, nClone, nRerun, nHold := 60, 40, 8, 2, 60
 	nServe, nReg := 24, 2*len(c09RegOps)+8
+	nCtx, nCfg := 16, 16
 	if !e.Quick {
 		nModel, nSnip, nClone, nRerun, nHold = 1200, 700, 90, 10, 900
 		nServe, nReg = 200, 2*len(c09RegOps)+100
+		nCtx, nCfg = 150, 150
 	}
 	if !c09CloneRerunScenario {
 		nRerun = 0
@@ -1273,6 +1290,8 @@ func c09_runC09(e *Env) {
 		prog  *c09Prog
 		class string
 		serve *c09ServeSpec
+		ctxs  *c09CtxSpec
+		cfg   *c09CfgSpec
 	}
 	var scheds []sched
 	holds := map[string]c09HoldSpec{}
@@ -1285,7 +1304,7 @@ func c09_runC09(e *Env) {
 		for k := 0; k < n; k++ {
 			job.Srcs = append(job.Srcs, p.src)
 		}
-		scheds = append(scheds, sched{job, fmt.Sprintf("model n=%d share=%v procs=%d prog=%s", n, job.Share, job.Procs, p.tokens), p, "model", nil})
+		scheds = append(scheds, sched{job, fmt.Sprintf("model n=%d share=%v procs=%d prog=%s", n, job.Share, job.Procs, p.tokens), p, "model", nil, nil, nil})
 	}
 	for i := 0; i < nSnip; i++ {
 		n := 2 + rng.Intn(15)
@@ -1304,7 +1323,7 @@ func c09_runC09(e *Env) {
 		if same {
 			job.Share = rng.Bool()
 		}
-		scheds = append(scheds, sched{job, fmt.Sprintf("snippets n=%d share=%v procs=%d %s", n, job.Share, job.Procs, strings.Join(job.Srcs, " ## ")), nil, "snippets:" + tags[0], nil})
+		scheds = append(scheds, sched{job, fmt.Sprintf("snippets n=%d share=%v procs=%d %s", n, job.Share, job.Procs, strings.Join(job.Srcs, " ## ")), nil, "snippets:" + tags[0], nil, nil, nil})
 	}
 	for i := 0; i < nClone; i++ {
 		n := 2 + rng.Intn(15)
@@ -1314,7 +1333,7 @@ func c09_runC09(e *Env) {
 		for k := 0; k < n; k++ {
 			job.Calls = append(job.Calls, rng.Intn(300))
 		}
-		scheds = append(scheds, sched{job, fmt.Sprintf("clones n=%d procs=%d a=%d b=%d calls=%v", n, job.Procs, a, b, job.Calls), nil, "clones", nil})
+		scheds = append(scheds, sched{job, fmt.Sprintf("clones n=%d procs=%d a=%d b=%d calls=%v", n, job.Procs, a, b, job.Calls), nil, "clones", nil, nil, nil})
 	}
 	for i := 0; i < nRerun; i++ {
 		n := 1 + rng.Intn(4)
@@ -1324,7 +1343,7 @@ func c09_runC09(e *Env) {
 		for k := 0; k < n; k++ {
 			job.Calls = append(job.Calls, rng.Intn(100))
 		}
-		scheds = append(scheds, sched{job, fmt.Sprintf("clone-rerun n=%d procs=%d src2=%q calls=%v", n, job.Procs, src2, job.Calls), nil, "clone-rerun", nil})
+		scheds = append(scheds, sched{job, fmt.Sprintf("clone-rerun n=%d procs=%d src2=%q calls=%v", n, job.Procs, src2, job.Calls), nil, "clone-rerun", nil, nil, nil})
 	}
 
 	hrng := e.Rng.Fork() // own stream: the schedules above stay what they were for a given seed
@@ -1354,7 +1373,7 @@ func c09_runC09(e *Env) {
 			h.ops = append([]int(nil), perm[:k]...)
 		}
 		job, key := h.job()
-		scheds = append(scheds, sched{job, key, nil, "hold", nil})
+		scheds = append(scheds, sched{job, key, nil, "hold", nil, nil, nil})
 		holds[key] = h
 	}
 
@@ -1363,7 +1382,7 @@ func c09_runC09(e *Env) {
 	for i := 0; i < nServe; i++ {
 		sp := c09GenServe(srng, i)
 		job, key := sp.job()
-		scheds = append(scheds, sched{job, key, nil, "serve", &sp})
+		scheds = append(scheds, sched{job, key, nil, "serve", &sp, nil, nil})
 	}
 	rrng := e.Rng.Fork()
 	regs := map[string]c09RegSpec{}
@@ -1374,7 +1393,25 @@ func c09_runC09(e *Env) {
 			continue
 		}
 		regs[key] = h
-		scheds = append(scheds, sched{job, key, nil, "registry", nil})
+		scheds = append(scheds, sched{job, key, nil, "registry", nil, nil, nil})
+	}
+	// ctxshare and config schedules (c09wide.go), each class on its own random stream
+	crng := e.Rng.Fork()
+	for i := 0; i < nCtx; i++ {
+		sp := c09GenCtx(crng, i)
+		job, key := sp.job()
+		scheds = append(scheds, sched{job, key, nil, "ctxshare", nil, &sp, nil})
+	}
+	grng := e.Rng.Fork()
+	seenCfg := map[string]bool{}
+	for i := 0; i < nCfg; i++ {
+		h := c09GenCfg(grng, i)
+		job, key := h.job()
+		if seenCfg[key] {
+			continue
+		}
+		seenCfg[key] = true
+		scheds = append(scheds, sched{job, key, nil, "config", nil, nil, &h})
 	}
 
 	// the stand-alone reference of a registry evaluation: evaluation k by itself in a FRESH process
@@ -1382,16 +1419,31 @@ func c09_runC09(e *Env) {
 		src   string
 		k     int
 		share bool
+		cfg   string // config: the evaluation's options (JSON); "" for registry evaluations
 	}
 	alone := map[aloneKey]string{}
+	aloneCfg := map[aloneKey]c09CfgEval{}
+	// config: what every attribute of the menu reads as in an evaluation without any option, alone in a fresh process
+	allCells := make([]int, len(c09CfgCells))
+	for c := range allCells {
+		allCells[c] = c
+	}
+	baseKey := aloneKey{c09CfgSrc(allCells, 1), 0, false, c09CfgJSON(c09CfgEval{API: "eval"})}
 	{
 		var keys []aloneKey
+		alone[baseKey] = ""
+		aloneCfg[baseKey] = c09CfgEval{API: "eval"}
+		keys = append(keys, baseKey)
 		for _, s := range scheds {
-			if s.class != "registry" {
+			if s.class != "registry" && s.class != "config" {
 				continue
 			}
 			for k := 0; k < s.job.Threads; k++ {
-				ak := aloneKey{s.job.Srcs[0], k, s.job.Share}
+				ak := aloneKey{s.job.Srcs[0], k, s.job.Share, ""}
+				if s.class == "config" {
+					ak.cfg = c09CfgJSON(s.job.Cfgs[k])
+					aloneCfg[ak] = s.job.Cfgs[k]
+				}
 				if _, ok := alone[ak]; !ok {
 					alone[ak] = ""
 					keys = append(keys, ak)
@@ -1408,6 +1460,13 @@ func c09_runC09(e *Env) {
 				defer wg.Done()
 				defer func() { <-sem }()
 				job := &c09Job{Kind: "registry", Srcs: []string{ak.src}, Share: ak.share, Procs: 1, Threads: ak.k + 1, Sync: "none", Plain: true, Only: ak.k + 1}
+				if ak.cfg != "" {
+					job.Kind = "config"
+					job.Cfgs = make([]c09CfgEval, ak.k+1)
+					mu.Lock()
+					job.Cfgs[ak.k] = aloneCfg[ak]
+					mu.Unlock()
+				}
 				r, _, se, err := runner.run(job)
 				out := ""
 				switch {
@@ -1424,6 +1483,20 @@ func c09_runC09(e *Env) {
 		wg.Wait()
 		e.R.H("registry_alone_children", strconv.Itoa(len(keys)))
 	}
+	cfgBase := map[int]string{}
+	if txt, ok := c09CfgUnquote(alone[baseKey]); ok {
+		if parts := strings.Split(txt, "|"); len(parts) == len(c09CfgCells) {
+			for c, t := range parts {
+				cfgBase[c] = t
+				if t == "MISSING" {
+					e.R.Mismatch("config menu", t, "a value", "attribute "+c09CfgCellName(c)+" of the harness's menu is not in the standard library (harness menu out of date?)")
+				}
+			}
+		}
+	}
+	if len(cfgBase) != len(c09CfgCells) {
+		e.R.Mismatch("config menu", alone[baseKey], "string:\"...|...\"", "the evaluation without options that reads every attribute of the menu did not evaluate alone in a fresh process")
+	}
 
 	// sequential reference + oracle, in order (deterministic), then the concurrent children in parallel
 	type ref struct {
@@ -1434,13 +1507,23 @@ func c09_runC09(e *Env) {
 	for i, s := range scheds {
 		if s.class == "registry" {
 			for k := 0; k < s.job.Threads; k++ {
-				refs[i].seq = append(refs[i].seq, alone[aloneKey{s.job.Srcs[0], k, s.job.Share}])
+				refs[i].seq = append(refs[i].seq, alone[aloneKey{s.job.Srcs[0], k, s.job.Share, ""}])
 			}
+			continue
+		}
+		if s.class == "config" {
+			for k := 0; k < s.job.Threads; k++ {
+				refs[i].seq = append(refs[i].seq, alone[aloneKey{s.job.Srcs[0], k, s.job.Share, c09CfgJSON(s.job.Cfgs[k])}])
+			}
+			c09CfgReference(e, grng, s.key, s.cfg, refs[i].seq, cfgBase)
 			continue
 		}
 		refs[i].seq = c09RunJob(s.job, false)
 		if s.serve != nil {
 			c09ServeReference(e, srng, s.key, s.serve, refs[i].seq)
+		}
+		if s.ctxs != nil {
+			c09CtxReference(e, crng, s.key, s.ctxs, refs[i].seq)
 		}
 		if s.prog != nil {
 			n := len(s.job.Srcs)
@@ -1519,7 +1602,8 @@ func c09_runC09(e *Env) {
 	minimised := map[string]bool{}
 	for i, s := range scheds {
 		o := outs[i]
-		e.R.Case(s.key, len(s.job.Srcs) >= 2 || len(s.job.Calls) >= 1 || ((s.class == "hold" || s.class == "registry") && s.job.Threads >= 2) || (s.class == "serve" && len(refs[i].seq) >= 2))
+		e.R.Case(s.key, len(s.job.Srcs) >= 2 || len(s.job.Calls) >= 1 || ((s.class == "hold" || s.class == "registry") && s.job.Threads >= 2) || (s.class == "serve" && len(refs[i].seq) >= 2) ||
+			((s.class == "ctxshare" || s.class == "config") && s.job.Threads >= 2))
 		if s.class == "serve" {
 			for _, rs := range s.job.Reqs {
 				for _, rq := range rs {
@@ -1543,6 +1627,34 @@ func c09_runC09(e *Env) {
 				if !strings.HasPrefix(r, "list:") {
 					e.R.Mismatch(s.key, r, "list:[...]", fmt.Sprintf("registry program of evaluation %d does not evaluate alone in a fresh process (harness menu out of date?)", t))
 					break
+				}
+			}
+		}
+		if s.class == "ctxshare" {
+			for _, grp := range s.job.Groups {
+				e.R.H("ctxshare_context_ends_by", grp.Ctx)
+				e.R.H("ctxshare_members_per_context", fmt.Sprintf("%02d", len(grp.Members)))
+				for _, m := range grp.Members {
+					role := m.Role
+					if m.Late {
+						role = "late " + role
+					}
+					e.R.H("ctxshare_member", role)
+					e.R.H("ctxshare_api", m.API)
+				}
+			}
+			e.R.H("ctxshare_race_detector", fmt.Sprintf("%v", !s.job.Plain))
+		}
+		if s.class == "config" {
+			e.R.H("config_mode", map[bool]string{true: "back to back", false: "concurrent"}[s.job.Seq])
+			e.R.H("config_race_detector", fmt.Sprintf("%v", !s.job.Plain))
+			for _, c := range s.job.Cfgs {
+				e.R.H("config_api", c.API)
+				if len(c.Edits) == 0 {
+					e.R.H("config_option", "none")
+				}
+				for _, ed := range c.Edits {
+					e.R.H("config_option", ed.Kind)
 				}
 			}
 		}
@@ -1692,6 +1804,42 @@ func c09_runC09(e *Env) {
 				}
 				e.R.Spec(s.key, fmt.Sprintf("request %d of worker %d (%s through the top-level API, its own context %s) returned %q while other requests ran / other requests' contexts were released; alone it returns %s",
 					j, w, rq, map[bool]string{true: "was cancelled by itself during the run", false: "was NOT cancelled before it returned"}[rq.Cancel == "self"], o.res[t], strings.Join(c09ReqExpect(rq, w, j), " or ")), "")
+			} else if s.class == "ctxshare" {
+				g, j := 0, t
+				for g < len(s.job.Groups) && j >= len(s.job.Groups[g].Members) {
+					j -= len(s.job.Groups[g].Members)
+					g++
+				}
+				grp := s.job.Groups[g]
+				m := grp.Members[j]
+				if c09CtxAccepts(grp, m, g, j, o.res[t]) {
+					e.R.H("result", "same as alone")
+					continue
+				}
+				e.R.H("result", "differs")
+				if nDiffNotes < 6 {
+					nDiffNotes++
+					e.R.Note("ctxshare: member %d of group %d (%s, context %s) returned %q, alone %s", j, g, m, grp.Ctx, o.res[t], strings.Join(c09CtxExpect(grp, m, g, j), " or "))
+				}
+				what := "its context was NOT ended before it returned"
+				if m.Role == "long" {
+					what = "its context ended while it was running (parked in wait(), after the short members of the group had returned); it then called wait() " +
+						strconv.Itoa(c09CtxLimit) + " more times (>= 1 ms each) without being halted"
+				}
+				e.R.Spec(s.key, fmt.Sprintf("member %d of group %d (%s, own VM and globals, context <%s> shared with %d other evaluation(s)) returned %q: %s; alone under such a context it returns %s",
+					j, g, m, grp.Ctx, len(grp.Members)-1, o.res[t], what, strings.Join(c09CtxExpect(grp, m, g, j), " or ")), "")
+			} else if o.res[t] != seq[t] && s.class == "config" {
+				e.R.H("result", "differs")
+				mode := "concurrently with the other evaluations"
+				if s.job.Seq {
+					mode = "back to back with the other evaluations in one process"
+				}
+				if nDiffNotes < 6 {
+					nDiffNotes++
+					e.R.Note("config: %s: evaluation %d %s %q, alone %q", s.key, t, mode, o.res[t], seq[t])
+				}
+				e.R.Spec(s.key, fmt.Sprintf("evaluation %d {%s} (own Config, globals and VM) run %s: %s; it returned %q, alone in a fresh process %q",
+					t, s.job.Cfgs[t], mode, c09CfgDiff(s.cfg, o.res[t], seq[t]), o.res[t], seq[t]), "")
 			} else if o.res[t] != seq[t] && s.class == "registry" {
 				e.R.H("result", "differs")
 				h := regs[s.key]
@@ -1735,6 +1883,6 @@ func c09_runC09(e *Env) {
 			e.R.H("sequential_result_type", k)
 		}
 	}
-	e.R.Note("%d schedules (%d model-covered, %d snippet sets, %d clone sets, %d clone-during-rerun, %d hold, %d serve, %d registry), race detector: %v, %d child processes, %d parallel",
-		len(scheds), nModel, nSnip, nClone, nRerun, nHold, nServe, len(regs), race, runner.n, par)
+	e.R.Note("%d schedules (%d model-covered, %d snippet sets, %d clone sets, %d clone-during-rerun, %d hold, %d serve, %d registry, %d ctxshare, %d config), race detector: %v, %d child processes, %d parallel",
+		len(scheds), nModel, nSnip, nClone, nRerun, nHold, nServe, len(regs), nCtx, len(seenCfg), race, runner.n, par)
 }
